@@ -89,20 +89,25 @@ theorem c19_gates_first (w : World) (op : Op) (h : op.mayMutate w = false) :
     (step w op).world.fs = w.fs ∧ ∀ e ∈ (step w op).effects, e.isMutation = false :=
   readonly_ops w op h
 
-/-- A refused mutating operation also leaves the tracked documents (contents and versions) and
-the audit log untouched; only the session table may have been pruned / renewed. -/
+/-- A refused mutating operation also leaves the tracked documents (contents and versions), the
+retired-version floor and the audit log untouched; only the session table may have been pruned /
+renewed. -/
 theorem c19_refused_keeps_documents (w : World) (tok : Nat) (p n : List Char) (e : Nat)
     (c : List Char) (oc : Option (List Char)) (d we : Bool)
     (h : (we && liveEditor w.inner tok w.now) = false) :
     ∀ op ∈ [Op.apply tok p e c we, Op.create tok p d oc we, Op.rename tok p n we, Op.delete tok p we],
-      (step w op).world.inner.docs = w.inner.docs ∧ (step w op).world.inner.audit = w.inner.audit := by
+      (step w op).world.inner.docs = w.inner.docs ∧ (step w op).world.inner.floor = w.inner.floor ∧
+      (step w op).world.inner.audit = w.inner.audit := by
   intro op hop
+  have key : ∀ o : Out, Quiet w o → o.world.inner.docs = w.inner.docs ∧
+      o.world.inner.floor = w.inner.floor ∧ o.world.inner.audit = w.inner.audit :=
+    fun o hq => ⟨congrArg Prod.fst hq.2.1, congrArg Prod.snd hq.2.1, hq.2.2.1⟩
   simp only [List.mem_cons, List.not_mem_nil, or_false] at hop
   rcases hop with rfl | rfl | rfl | rfl
-  · exact ⟨(applySource_quiet w tok p e c we h).2.1, (applySource_quiet w tok p e c we h).2.2.1⟩
-  · exact ⟨(createEntry_quiet w tok p d oc we h).2.1, (createEntry_quiet w tok p d oc we h).2.2.1⟩
-  · exact ⟨(renameEntry_quiet w tok p n we h).2.1, (renameEntry_quiet w tok p n we h).2.2.1⟩
-  · exact ⟨(deleteEntry_quiet w tok p we h).2.1, (deleteEntry_quiet w tok p we h).2.2.1⟩
+  · exact key _ (applySource_quiet w tok p e c we h)
+  · exact key _ (createEntry_quiet w tok p d oc we h)
+  · exact key _ (renameEntry_quiet w tok p n we h)
+  · exact key _ (deleteEntry_quiet w tok p we h)
 
 /-- Non-vacuity of the gate theorems: on a one-file project a viewer (token 0), an unknown token
 (7) and an editor with writes disabled are refused without any change, and the same rename by the
@@ -127,25 +132,32 @@ open Proto
 
 /-- **No lost update** ("a write succeeds only if it was based on the latest version … no
 successful write is silently overwritten"), for every number of clients, every interleaving of
-their unlocked disk reads and locked sections, every expected version they send and every
-interference by analysis requests that overwrite the tracked text (`override`), as long as the
-trace uses only the steps covered by the version protocol (`Step.versioned`; see the counterexamples
-below for `delete`/`create` and `rename_symbol`) and is shorter than 2^63 steps (`u64` versions
-saturate).  A successful write of an honest client — `base = some c`: the client sent an `expected`
-version it had been given together with content `c` — found exactly `c` on disk; and every
-successful write found on disk the content of the previous successful write (or the initial
-content), so nothing that was successfully written is ever replaced unseen. -/
+their unlocked disk reads and locked sections, every expected version they send, every
+interference by analysis requests that overwrite the tracked text (`override`), and — since the
+repairs of C19-version-reuse and C19-rename-symbol-bypass — every `delete_entry` / `create_entry`
+/ eviction of the tracked document, retirement of other documents (the floor is shared) and
+`rename_symbol` in between (`Step.covered`: everything but a write through a second document key
+of the same file, the open finding C19-alias-keys, see the counterexample below), as long as the
+version counters stay below `u64::MAX` (`traceCost`: 2 per step, `k + 2` for a foreign document
+retired at version `k`).  A successful write of an honest client — `base = some c`: the client
+sent an `expected` version it had been given together with content `c` (for `rename_symbol`: `c`
+is what it read under the lock) — found exactly `c` on disk; and every successful write found on
+disk the content of the previous successful write (or the initial content), or no file at all (it
+had been removed by `delete_entry`), so nothing that was successfully written is ever replaced
+unseen. -/
 theorem c19_no_lost_update_partial (d0 : Content) (tr : List Step)
-    (hv : ∀ st ∈ tr, st.versioned = true) (hlen : 2 * tr.length + 2 < u64Max) :
+    (hv : ∀ st ∈ tr, st.covered = true) (hlen : traceCost tr + 2 < u64Max) :
     (∀ ev ∈ (run (init d0) tr).successes, ∀ c, ev.base = some c → ev.diskBefore = some c) ∧
     chainOk d0 (run (init d0) tr).successes := by
   have h := run_inv (d0 := d0) tr (init d0) 0 (inv_init d0) hv (by omega)
   exact ⟨fun ev hev => (h.succ_ok ev hev).2.2, h.chain⟩
 
 /-- **Version chain** ("successes form a chain v → v+1"): every successful write returns
-`expected + 1`, and the versions of the successive successes strictly increase. -/
+`expected + 1` (`create_entry`: one above the retired floor; `rename_symbol`: one above the version
+it read under the lock), and the versions of the successive successes strictly increase — also
+across a deletion and re-creation of the file: no version is handed out twice. -/
 theorem c19_version_chain_partial (d0 : Content) (tr : List Step)
-    (hv : ∀ st ∈ tr, st.versioned = true) (hlen : 2 * tr.length + 2 < u64Max) :
+    (hv : ∀ st ∈ tr, st.covered = true) (hlen : traceCost tr + 2 < u64Max) :
     (∀ ev ∈ (run (init d0) tr).successes, ev.version = ev.expected + 1) ∧
     (run (init d0) tr).successes.Pairwise (fun a b => a.version < b.version) := by
   have h := run_inv (d0 := d0) tr (init d0) 0 (inv_init d0) hv (by omega)
@@ -157,17 +169,17 @@ released together on version v exactly the first one to take the lock wins.  Thi
 atomicity of the locked section (`applyLocked`: check, disk write and commit in ONE transition)
 enters; compare `c19_counterexample_split_apply`. -/
 theorem c19_one_success_per_version_partial (d0 : Content) (tr : List Step)
-    (hv : ∀ st ∈ tr, st.versioned = true) (hlen : 2 * tr.length + 2 < u64Max) :
+    (hv : ∀ st ∈ tr, st.covered = true) (hlen : traceCost tr + 2 < u64Max) :
     (run (init d0) tr).successes.Pairwise (fun a b => a.expected ≠ b.expected) := by
   have h := run_inv (d0 := d0) tr (init d0) 0 (inv_init d0) hv (by omega)
   exact expected_distinct _ (fun ev hev => (h.succ_ok ev hev).1) h.sorted
 
-/-- **Disk = last success** ("the file always equals the content of the last successful write"). -/
+/-- **Disk = last success** ("the file always equals the content of the last successful write"):
+whenever the file exists (it is absent only after a `delete_entry`), it holds the content of the
+last successful write, or the initial content if there was none. -/
 theorem c19_disk_is_last_success_partial (d0 : Content) (tr : List Step)
-    (hv : ∀ st ∈ tr, st.versioned = true) (hlen : 2 * tr.length + 2 < u64Max) :
-    (run (init d0) tr).disk = some (match (run (init d0) tr).successes.getLast? with
-      | some ev => ev.content
-      | none => d0) := by
+    (hv : ∀ st ∈ tr, st.covered = true) (hlen : traceCost tr + 2 < u64Max) :
+    ∀ c, (run (init d0) tr).disk = some c → c = lastContent d0 (run (init d0) tr).successes := by
   have h := run_inv (d0 := d0) tr (init d0) 0 (inv_init d0) hv (by omega)
   exact h.disk_ok
 
@@ -175,7 +187,7 @@ theorem c19_disk_is_last_success_partial (d0 : Content) (tr : List Step)
 happened before that write, is refused (its stale read bumps the version to 3); it re-opens
 (version 4, content `A`) and then succeeds (4 → 5). -/
 example :
-    (∀ st ∈ raceTrace, st.versioned = true) ∧
+    (∀ st ∈ raceTrace, st.covered = true) ∧ traceCost raceTrace + 2 < u64Max ∧
     ((run (init "v0".toList) raceTrace).successes.map fun ev => (ev.client, ev.expected, ev.version)) =
       [(0, 1, 2), (1, 4, 5)] ∧
     ((run (init "v0".toList) raceTrace).successes.map fun ev => (ev.base, ev.diskBefore)) =
@@ -183,21 +195,34 @@ example :
     (run (init "v0".toList) raceTrace).disk = some "B2".toList := by
   decide
 
-/-- **Counterexample (open finding C19-version-reuse)**: `delete_entry` drops the tracked document
-and `create_entry` restarts it at version 1, so a snapshot handed out before the deletion matches
-again: the honest writer 0 (expected = 1, based on `v0`) overwrites `B2`, which it never saw. -/
-theorem c19_counterexample_version_reuse :
-    ∃ ev ∈ (run (init "v0".toList) reuseTrace).successes,
-      ev.client = 0 ∧ ev.base = some "v0".toList ∧ ev.diskBefore = some "B2".toList := by
+/-- **Witness of the repaired finding C19-version-reuse** (non-vacuity of the theorems over
+`delete` / `create` / `retireOther`): client 0 holds a snapshot (version 1, content `v0`); client 1
+saves `B1` (1 → 2), deletes the file, a document of another file is retired at version 4, client 1
+re-creates the file with `B2` — the new document starts at 5, above everything retired, instead of
+restarting at 1.  Client 0's save with expected = 1 is refused (it used to succeed and replace
+`B2` unseen); it re-opens (5, `B2`) and then saves on top of `B2` (5 → 6). -/
+example :
+    (∀ st ∈ reuseTrace, st.covered = true) ∧ traceCost reuseTrace + 2 < u64Max ∧
+    ((run (init "v0".toList) reuseTrace).successes.map fun ev => (ev.client, ev.expected, ev.version)) =
+      [(1, 1, 2), (1, 4, 5), (0, 5, 6)] ∧
+    ((run (init "v0".toList) reuseTrace).successes.map fun ev => (ev.base, ev.diskBefore)) =
+      [(some "v0".toList, some "v0".toList), (none, none), (some "B2".toList, some "B2".toList)] ∧
+    (run (init "v0".toList) reuseTrace).disk = some "A2".toList := by
   decide
 
-/-- **Counterexample (open finding C19-rename-symbol-bypass)**: `rename_symbol` writes the result
-computed from the caller's (stale) buffer under the lock without any expected version: client 1's
-successful write `B1` is replaced by a text derived from `v0`, and the disk is no longer the
-content of the last successful versioned write. -/
-theorem c19_counterexample_rename_symbol_bypass :
-    ((run (init "v0".toList) symRenameTrace).successes.getLast?.map (·.content)) = some "B1".toList ∧
-    (run (init "v0".toList) symRenameTrace).disk = some "renamed(v0)".toList := by
+/-- **Witness of the repaired finding C19-rename-symbol-bypass** (non-vacuity over `symRename`):
+client 0's `rename_symbol` with the stale buffer `v0` after client 1's save `B1` (1 → 2) is
+refused and leaves `B1` on disk (it used to write `renamed(v0)`); with the buffer the file holds
+it goes through as a write based on `B1` (2 → 3), and client 1's save based on version 2 is then
+refused. -/
+example :
+    (∀ st ∈ symRenameTrace, st.covered = true) ∧ traceCost symRenameTrace + 2 < u64Max ∧
+    (run (init "v0".toList) (symRenameTrace.take 7)).disk = some "B1".toList ∧
+    ((run (init "v0".toList) symRenameTrace).successes.map fun ev => (ev.client, ev.expected, ev.version)) =
+      [(1, 1, 2), (0, 2, 3)] ∧
+    ((run (init "v0".toList) symRenameTrace).successes.map fun ev => (ev.base, ev.diskBefore)) =
+      [(some "v0".toList, some "v0".toList), (some "B1".toList, some "B1".toList)] ∧
+    (run (init "v0".toList) symRenameTrace).disk = some "renamed(B1)".toList := by
   decide
 
 /-- **Counterexample (open finding C19-alias-keys)**: tracked documents are keyed by the normalised
@@ -213,7 +238,7 @@ theorem c19_counterexample_alias_keys :
 
 /-- **What the protocol theorems rest on**: if the locked section of `apply_source` were torn into
 "check under the lock — unlock — write — re-lock and commit" (`splitCheck`/`splitWrite`/
-`splitCommit`; NOT the code's behaviour, and not `versioned`), two honest writers released on the
+`splitCommit`; NOT the code's behaviour, and not `covered`), two honest writers released on the
 same version both succeed (1 → 2 and 1 → 3), and the file ends with the content of the EARLIER
 success while the tracked document holds the later one.  Sequentially the torn variant is
 indistinguishable from the atomic one, so only real-thread contention (the barrier run of the
